@@ -370,16 +370,28 @@ def skeleton_rule(rep, f, name, value_arg, base, rule='R-SKELETON'):
         if f.bmap[bb] not in L['blocks']:
             init = v
     srcs = []
+    narrow = []
+
+    def strip_w(v):
+        """strip casts, remembering any truncation below the width of the value parameter"""
+        while v.k == 'inst' and f.insts[v.id].op in CASTS:
+            i = f.insts[v.id]
+            if i.op == 'trunc' and i.bits < vbits:
+                narrow.append(i)
+            v = i.ops[0]
+        return v
 
     def collect(v, depth=0):
-        v = strip(f, v)
+        v = strip_w(v)
         if v.k == 'inst' and f.insts[v.id].op in ('phi', 'select') and depth < 4:
             i = f.insts[v.id]
             for o in (i.ops[1:] if i.op == 'select' else i.ops):
                 collect(o, depth + 1)
         elif v.k == 'inst' and f.insts[v.id].op == 'sub' and f.insts[v.id].ops[0].k == 'ci' and \
                 f.insts[v.id].ops[0].ival == 0:
-            r = strip(f, f.insts[v.id].ops[1])
+            if f.insts[v.id].bits < vbits:
+                narrow.append(f.insts[v.id])
+            r = strip_w(f.insts[v.id].ops[1])
             srcs.append(('neg', r.argno if r.k == 'arg' else None))
         else:
             srcs.append(('val', v.argno if v.k == 'arg' else None))
@@ -388,6 +400,10 @@ def skeleton_rule(rep, f, name, value_arg, base, rule='R-SKELETON'):
     ok = bool(srcs) and all(s[1] == value_arg for s in srcs)
     inst('dividend-starts-from-the-value-or-its-negation', ok, 'dividend is initialised from %s' % srcs,
          fact={'sources': srcs})
+    inst('magnitude-is-computed-at-the-full-width-of-the-value', not narrow,
+         'on the way from the value parameter (%d bits) to the dividend the value is cut to %s bits (%s): magnitudes that '
+         'need more bits lose their high part, e.g. a negation carried out in a narrower unsigned type'
+         % (vbits, narrow[0].bits if narrow else '?', narrow[0].op if narrow else ''))
     # one byte per digit at a cursor that moves by one.  The cursor may be a pointer (`*p++ = d`) or an index
     # (`buf[len++] = d`); the digit may be stored by one statement or by one store in each arm of an if/else.
     stores = [i for b in L['blocks'] for i in b.insts if i.op == 'store' and rems and depends_on(f, i.ops[0], rems[0])]
